@@ -351,7 +351,7 @@ static size_t unhex(const char *h, unsigned char **out)
 
 int main(void)
 {
-	static char line[1 << 16];
+	static char line[1 << 23];
 	unsigned int refresh = 3600, expire = 7200, retry = 600, mode = 0;
 	size_t capev = 0;
 
